@@ -428,6 +428,22 @@ class Runner:
         self.last = {"op": "DELETE", "ack": ack, "resp": r, "coll": coll, "name": name, "hdrs": hdrs}
         if name is not None:
             self.expect_cond("DELETE", st, r, ack, coll, name, hdrs)
+        elif "cond" in self.obs and hdrs and self.cfg.get("audit") != "sparse":
+            # If-Match on the DELETE of a collection refers to the collection's own ETag
+            chdrs = [(k, v) for k, v in hdrs if k.lower() == "if-match"]
+            exists = coll in self.model.colls
+            cur = self.cur_etag.get((coll, None)) if exists else None
+            if chdrs and (cur is not None or not exists):
+                passes, decided = cond_truth(chdrs, exists, cur)
+                self.stats[f"cond:DELETE-coll:{'decided' if decided else 'malformed'}:{'pass' if passes else 'fail'}"] += 1
+                desc = f"DELETE {coll} (collection) via {st.get('fe')} with {chdrs} (collection {'exists, ETag ' + str(cur) if exists else 'absent'})"
+                if decided and not passes and not (not exists and r.status == 404):
+                    if ack or r.status != 412:
+                        self.violation("cond", "delete-collection-precondition-false-not-412", f"{desc}: precondition is false but the answer was {r.status}")
+                    self.cond_nontrivial = getattr(self, "cond_nontrivial", set())
+                    self.cond_nontrivial.add(("DELETE-coll", "if-match", st.get("fe"), passes))
+                if decided and passes and r.status == 412:
+                    self.violation("cond", "delete-collection-precondition-true-412", f"{desc}: precondition holds but the answer was 412")
         if r.status >= 500:
             self.stats["5xx"] += 1
             self.note5xx(st, r)
@@ -855,10 +871,25 @@ class Runner:
                     hrefs = [self.world.url(self.member_path(coll, n)) for n in sel]
                     if self.step_no % 2:
                         hrefs = hrefs[:1] + hrefs  # clients do repeat hrefs; the views must agree all the same
+                    # ... and ask for members of other collections of the same kind in the same request
+                    ext = ".ics" if kind == "calendar" else ".vcf"
+                    extra = [(oc, n2) for oc, om in sorted(self.model.colls.items()) if oc != coll and om.kind == kind for n2 in sorted(om.members) if n2.endswith(ext) and self.cur_etag.get((oc, n2))][:2]
+                    xh = [self.world.url(self.member_path(oc, n2)) for oc, n2 in extra]
+                    hrefs = (xh + hrefs) if self.step_no % 3 == 0 else (hrefs + xh)
                     r = self.req(fe, "REPORT", coll + "/", [("Depth", "1"), dav.XML_CT], dav.multiget_body(kind, hrefs, data=False))
                     ms = dav.parse_ms(r)
                     if ms is not None:
+                        pre = self.world.prefix.rstrip("/")
                         for resp in ms.responses:
+                            rp = dav.href_path(resp.href) or ""
+                            rp = rp[len(pre):] if pre and rp.startswith(pre) else rp
+                            rc, rn = posixpath.split(rp.rstrip("/"))
+                            if rc != coll:
+                                if (rc, rn) in extra and resp.prop_text(P_ETAG) is not None:
+                                    self.stats["view:multiget-other-collection"] += 1
+                                    if resp.prop_text(P_ETAG) != self.cur_etag[(rc, rn)]:
+                                        self.violation("etag-views", "multiget-other-collection", f"multiget sent to {coll} answers {rc}/{rn} with ETag {resp.prop_text(P_ETAG)}; PROPFIND on its own collection says {self.cur_etag[(rc, rn)]}")
+                                continue
                             n = name_from_href(resp.href)
                             if n in mc.members and resp.prop_text(P_ETAG) is not None:
                                 if "multiget" in views[n] and views[n]["multiget"] != resp.prop_text(P_ETAG):
@@ -1130,8 +1161,12 @@ class Runner:
                 # refuse it or answer the correct difference from the empty state - checked as 'empty'
                 self.stats["sync:foreign-empty-tree"] += 1
                 return
-        r = self.req(fe, "REPORT", coll + "/", [("Depth", "1"), dav.XML_CT], dav.sync_body(token))
+        # clients ask for different property sets; which members are reported must not depend on that
+        want = {"etag": (P_ETAG,), "ctype": ("{DAV:}getcontenttype",), "rt+ctype": (P_RT, "{DAV:}getcontenttype"), "etag+ctype": (P_ETAG, "{DAV:}getcontenttype"), "none": ()}[st.get("props", "etag")]
+        with_etag = P_ETAG in want
+        r = self.req(fe, "REPORT", coll + "/", [("Depth", "1"), dav.XML_CT], dav.sync_body(token, props=want))
         self.stats["sync:" + kind] += 1
+        self.stats["sync:props:" + st.get("props", "etag")] += 1
         if kind == "foreign":
             ok_error = r.status >= 400
             ms = dav.parse_ms(r) if r.status == 207 else None
@@ -1161,8 +1196,8 @@ class Runner:
             else:
                 if n in got_changed:
                     self.violation("sync", "duplicate-response", f"{coll}: {n!r} reported twice")
-                got_changed[n] = resp.prop_text(P_ETAG)
-        desc = f"sync-collection on {coll} from token {token!r} (issued after step {hist[idx][2] if idx is not None else 'n/a'}, kind {kind})"
+                got_changed[n] = resp.prop_text(P_ETAG) if with_etag else cur.get(n)
+        desc = f"sync-collection on {coll} (properties asked: {st.get('props', 'etag')}) from token {token!r} (issued after step {hist[idx][2] if idx is not None else 'n/a'}, kind {kind})"
         if set(got_changed) != exp_changed:
             self.violation("sync", "changed-set", f"{desc}: reported changed {sorted(got_changed)} expected {sorted(exp_changed)}")
         if got_removed != exp_removed:
@@ -1860,6 +1895,12 @@ class Runner:
         for resp in ms.responses:
             if first:
                 first = False
+                # the collection's own entity tag (conditional requests on collections refer to it)
+                et = resp.prop_text(P_ETAG)
+                if et:
+                    self.cur_etag[(coll, None)] = et
+                    if not self.etag_hist[coll] or self.etag_hist[coll][-1] != et:
+                        self.etag_hist[coll].append(et)
                 continue
             n = name_from_href(resp.href)
             rts = resp.resourcetypes()
@@ -1917,7 +1958,7 @@ class Runner:
                 if not self.etag_hist[path] or self.etag_hist[path][-1] != etag:
                     self.etag_hist[path].append(etag)
                 self.cur_etag[key] = etag
-            for key in [k for k in self.cur_etag if k[0] == coll and k[1] not in mc.members]:
+            for key in [k for k in self.cur_etag if k[0] == coll and k[1] is not None and k[1] not in mc.members]:
                 del self.cur_etag[key]
         for key in [k for k in self.cur_etag if k[0] not in model.colls]:
             del self.cur_etag[key]
